@@ -62,7 +62,7 @@ def gen_response(rng, want, fault):
     if fault == "503":
         return {"status": rng.choice([500, 503]), "code": "UNAVAILABLE"}
     if fault == "404":
-        return {"status": rng.choice([404, 403]), "code": "BLOB_UNKNOWN"}
+        return {"status": rng.choice([404, 403, 401]), "code": "BLOB_UNKNOWN"}
     if fault == "short":
         cut = rng.randrange(0, len(want)) if want else 0
         return {"status": 200, "pieces": [p for p in split(rng, want[:cut], rng.randint(0, 1)) if p], "tail": None}
@@ -162,7 +162,7 @@ def gen_pull(rng, klass=None):
         a = {"layers": list(layers), "config": config, "mkind": "ok", "env": {}, "order": None}
         r = rng.random()
         if r < 0.10:
-            a["mkind"] = rng.choice(["500", "404", "403", "badjson", "nolayers", "nulllayer"])
+            a["mkind"] = rng.choice(["500", "404", "403", "403", "badjson", "nolayers", "nulllayer"])
             if handler and a["mkind"] == "nulllayer":
                 a["mkind"] = "nolayers"     # through the handler a panic of Pull kills the process (bare goroutine): direct mode only
         for c in layers + ([config] if config else []):
@@ -170,7 +170,7 @@ def gen_pull(rng, klass=None):
             if len(c) >= thr:
                 plan = list(plans[c])
                 if rng.random() < pfault * 0.3:
-                    e["cs_status"] = rng.choice([503, 404])
+                    e["cs_status"] = rng.choice([503, 404, 401])
                 if rng.random() < pfault * 0.4:
                     plan = plan[: rng.randrange(0, len(plan) + 1)]
                     e["tail"] = rng.choice(["baddigest", "norange", "badrange", "revrange", "boom", None])
@@ -239,6 +239,7 @@ def gen_pull(rng, klass=None):
         pre.append({"op": "link", "name": NAME[7:], "data": hx(b'{"layers":[{"digest":"sha256:%s","size":1}]}' % sha(rnd_content(rng, 3)).encode())})
     return {"kind": "pull", "threshold": thr, "max_streams": rng.choice([-1, -1, -1, 2, 3, 0]) if gated else 1, "handler": handler, "pre": pre, "attempts": attempts,
             "read_timeout_ms": 400 if any(a.get("stall") for a in attempts) else None,
+            "stream": not (handler and rng.random() < 0.25), "auth": rng.random() < 0.3,
             "plankind": sorted(set(plankind.values())), "klass": klass or ("pull-gated" if gated else "pull-seq") + ("-handler" if handler else "")}
 
 
@@ -320,6 +321,10 @@ def to_harness(c):
            "pre": c["pre"], "attempts": atts}
     if c.get("read_timeout_ms"):
         out["read_timeout_ms"] = c["read_timeout_ms"]
+    if c.get("stream") is False:
+        out["stream"] = False
+    if c.get("auth"):
+        out["auth"] = True
     return out
 
 
@@ -462,7 +467,7 @@ def render(c, o):
         if None in snaps or o["attempts_made"] != len(snaps):
             return "false"
         script = cq_list([cq_attempt(c, a) for a in c["attempts"]], "cattempt")
-        return "chk_loop %s %s %s %s %s %s %s %s" % (cq_bool(FIXED), cq_bool(FIXED_LINK), cq_nat(c["threshold"]), np, c0, script,
+        return "chk_loop %s %s %s %s %s %s %s %s %s" % (cq_bool(c.get("stream", True)), cq_bool(FIXED), cq_bool(FIXED_LINK), cq_nat(c["threshold"]), np, c0, script,
                                                     cq_list(snaps, "psnap"), cq_bool(handler_ok(o)))
     atts = []
     for a, oa in zip(c["attempts"], o["attempts"]):
@@ -497,13 +502,13 @@ def gen_push(rng):
         if r < 0.2:
             post[sha(c)] = {"status": 200, "location": False}      # already at the registry
         elif r < 0.35:
-            post[sha(c)] = {"status": rng.choice([500, 403, 404]), "location": True}
+            post[sha(c)] = {"status": rng.choice([500, 403, 404, 401]), "location": True}
         else:
             post[sha(c)] = {"status": 200, "location": True}
             if rng.random() < 0.2:
-                put[sha(c)] = {"status": rng.choice([500, 400])}
-    man = {"status": 200 if rng.random() < 0.85 else 500}
-    return {"kind": "push", "name": NAME, "max_streams": rng.choice([1, 1, 0, -1]), "layers": [hx(c) for c in layers], "post": post, "put": put,
+                put[sha(c)] = {"status": rng.choice([500, 400, 401])}
+    man = {"status": 200 if rng.random() < 0.85 else rng.choice([500, 401])}
+    return {"kind": "push", "auth": rng.random() < 0.4, "name": NAME, "max_streams": rng.choice([1, 1, 0, -1]), "layers": [hx(c) for c in layers], "post": post, "put": put,
             "manifest": man, "klass": "push-new"}
 
 
@@ -522,13 +527,73 @@ def gen_push_legacy(rng):
             head[sha(c)] = rng.choice([500, 403])
         elif r < 0.55:
             post[sha(c)] = rng.choice([500, 400])
+    challenge, token = {}, 200
+    if rng.random() < 0.4:
+        # token-gated registry: requests are answered 401 with a bearer challenge first (once: the client fetches a token
+        # and repeats the request; twice: it gives up), the token endpoint may fail
+        token = 200 if rng.random() < 0.8 else rng.choice([500, 403])
+        for c in layers + ([config] if config else []):
+            if rng.random() < 0.6:
+                challenge["head:" + sha(c)] = rng.choice([1, 1, 1, 2])
+            if rng.random() < 0.3:
+                challenge["post:" + sha(c)] = rng.choice([1, 1, 2])
+            if token == 200 and rng.random() < 0.25:
+                challenge["commit:" + sha(c)] = 1
+        if rng.random() < 0.4:
+            challenge["manifest"] = rng.choice([1, 1, 2])
     patch_fail, commit_fail = {}, {}
     ups = [c for c in layers + ([config] if config else []) if sha(c) not in head and sha(c) not in post]
     if ups and rng.random() < 0.12:
         # one failure that the legacy client retries after a real 1 s sleep (part upload or finalising PUT)
         (patch_fail if rng.random() < 0.5 else commit_fail)[sha(rng.choice(ups))] = 1
     return {"kind": "push-legacy", "layers": [hx(c) for c in layers], "config": hx(config) if config else None, "head": head, "post": post,
-            "patch_fail": patch_fail, "commit_fail": commit_fail, "manifest": 200 if rng.random() < 0.85 else 500, "klass": "push-legacy"}
+            "patch_fail": patch_fail, "commit_fail": commit_fail, "manifest": 200 if rng.random() < 0.85 else 500,
+            "challenge": challenge, "token": token, "klass": "push-legacy-auth" if challenge else "push-legacy"}
+
+
+def legacy_accepts(c, d):
+    """does the scripted registry end up accepting layer d (what the model's push_legacy is told)"""
+    ch, tok_ok = c.get("challenge", {}), c.get("token", 200) == 200
+
+    def gate(key):
+        n = ch.get(key, 0)
+        return n == 0 or (tok_ok and n < 2)
+    if not gate("head:" + d):
+        return False
+    hs = c["head"].get(d, 404)
+    if hs == 200:
+        return True
+    if hs != 404 or not gate("post:" + d) or c["post"].get(d, 202) // 100 != 2:
+        return False
+    if not gate("commit:" + d):
+        return False
+    return c.get("commit_fail", {}).get(d, 0) < 6 and c.get("patch_fail", {}).get(d, 0) < 6
+
+
+def retry_run_cases(rng, quick):
+    """POST /api/pull histories with k = 1..10 consecutive retryable failures (5xx on the blob, 5xx on the manifest, connection
+    reset, deadline exceeded) followed by recovery or by a permanent failure, and non-streaming pulls (one attempt, no retry).
+    The handler's real back-off sleeps add up to seconds, so these run in a harness process of their own."""
+    out = []
+    L = rnd_content(rng, 3)
+
+    def att(mkind, fault):
+        resp = gen_response(rng, L, fault) if fault not in ("reset", "timeout") else {"status": 200, "pieces": [L[:1]], "tail": fault}
+        return {"layers": [L], "config": None, "mkind": mkind, "order": None,
+                "env": {sha(L): {"cs_status": 200, "tail": None, "plan": [], "single": {"resp": resp, "fault": fault}}}}
+    fails = [("ok", "503"), ("500", "ok"), ("ok", "reset"), ("ok", "timeout")]
+    ks = range(1, 11)
+    for k in ks:
+        variants = [("recover", True)] + ([("giveup", True)] if (not quick or k in (2, 5, 8)) else [])
+        for end, stream in variants:
+            atts = [att(*fails[(k + i) % len(fails)]) for i in range(k)]
+            atts.append(att("ok", "ok") if end == "recover" else att("ok", "404"))
+            out.append({"kind": "pull", "threshold": 8, "max_streams": 1, "handler": True, "stream": True, "auth": False, "pre": [], "attempts": atts,
+                        "plankind": [], "read_timeout_ms": None, "klass": "retry-run-%s" % end})
+    for fault in ("503", "ok", "404"):
+        out.append({"kind": "pull", "threshold": 8, "max_streams": 1, "handler": True, "stream": False, "auth": False, "pre": [],
+                    "attempts": [att("ok", fault), att("ok", "ok")], "plankind": [], "read_timeout_ms": None, "klass": "nonstream"})
+    return out
 
 
 def slow_legacy_cases(rng, n):
@@ -564,6 +629,8 @@ def legacy_events(c, o):
         w = l.split(" ")
         if w[0] in ("head", "post", "patch", "commit") and w[1] in ix and w[1] not in seen:
             seen.append(w[1])
+        if w[0] == "challenge" and ":" in w[1] and w[1].split(":", 1)[1] in ix and w[1].split(":", 1)[1] not in seen:
+            seen.append(w[1].split(":", 1)[1])
         if w[0] == "head" and int(w[2]) == 200:
             verdict[w[1]] = True
         elif w[0] == "head" and int(w[2]) != 404:
@@ -572,9 +639,12 @@ def legacy_events(c, o):
             verdict[w[1]] = False
         elif w[0] == "commit":
             verdict[w[1]] = verdict.get(w[1], False) or int(w[2]) // 100 == 2
-        elif w[0] == "manifest-put":
-            man_at = li
-    events = [("blob", ix[d], verdict[d]) for d in seen if d in verdict]
+        elif w[0] == "manifest-put" or l == "challenge manifest":
+            if man_at is None:
+                man_at = li
+    # a layer the client started on and the registry never accepted (refused outright, or the client gave up at a bearer
+    # challenge or at the token endpoint) counts as refused
+    events = [("blob", ix[d], verdict.get(d) is True) for d in seen]
     if man_at is not None:
         events.append(("manifest",))
     return order, events
@@ -612,8 +682,7 @@ def render_push(c, o):
         res = []
         for b in order:
             d = sha(b)
-            res.append(c["head"].get(d, 404) in (200, 404) and (c["head"].get(d, 404) == 200 or
-                                                                (c["post"].get(d, 202) // 100 == 2 and c.get("commit_fail", {}).get(d, 0) < 6 and c.get("patch_fail", {}).get(d, 0) < 6)))
+            res.append(legacy_accepts(c, d))
         obs = cq_list(["(EvBlob %s %s)" % (cq_nat(e[1]), cq_bool(e[2])) if e[0] == "blob" else "EvManifest" for e in events], "pev")
         return "chk_push_legacy %s %s" % (cq_list([cq_bool(x) for x in res], "bool"), obs)
     accepted, events = push_events(c, o)
@@ -644,7 +713,10 @@ def monitor_pull(c, o):
         for k, s in enumerate(snaps):
             a = c["attempts"][k] if k < len(c["attempts"]) else None
             lastok = k == len(snaps) - 1 and handler_ok(o)
-            out += check_attempt(c, a, prev, s, lastok, k, None if lastok else "err")
+            oa = {"resolve": o.get("resolve"), "log": [l for l in o.get("log", []) if l.startswith("%d " % (k + 1))]} if lastok else "err"
+            out += check_attempt(c, a, prev, s, lastok, k, oa)
+        if handler_ok(o) and not snaps:
+            out.append(({"kind": "pull", "class": "success-without-manifest"}, "the handler reported success without a single attempt"))
             prev = s
         return out
     prev = o["pre_snap"]
@@ -703,11 +775,13 @@ def monitor_push_legacy(c, o):
     if sum(1 for l in o["log"] if l.startswith("manifest-put")) > 1:
         out.append(({"kind": "push-legacy", "class": "manifest-not-last"}, "PushModel: more than one manifest PUT: %s" % o["log"]))
     if man:
-        if man[0] != len(events) - 1 or len(man) > 1 or not o["log"][-1].startswith("manifest-put"):
+        reqs = [l for l in o["log"] if not l.startswith("token ")]
+        first = min(i for i, l in enumerate(reqs) if l.startswith("manifest-put") or l == "challenge manifest")
+        if man[0] != len(events) - 1 or len(man) > 1 or any(not (l.startswith("manifest-put") or l == "challenge manifest") for l in reqs[first:]):
             out.append(({"kind": "push-legacy", "class": "manifest-not-last"}, "PushModel: manifest PUT is not the last request: %s" % o["log"]))
         if acc != set(range(len(order))) or any(e[0] == "blob" and not e[2] for e in events):
             out.append(({"kind": "push-legacy", "class": "manifest-before-layers"}, "PushModel: manifest PUT although not every layer was accepted: %s" % o["log"]))
-    if o.get("err") == "" and (not man or c["manifest"] != 200):
+    if o.get("err") == "" and (not man or not any(l == "manifest-put 200" for l in o["log"])):
         out.append(({"kind": "push-legacy", "class": "push-ok-without-manifest"}, "PushModel returned nil but the manifest was not accepted"))
     if o.get("err", "").startswith("PANIC"):
         out.append(({"kind": "push-legacy", "class": "panic"}, o["err"]))
@@ -903,12 +977,16 @@ def run(ctx, only_cases=None):
     if only_cases is None:
         import random
         import subprocess
-        slow = slow_legacy_cases(random.Random(ctx.seed * 7919 + 9), 1 if ctx.quick() else 6)
-        for sc in slow:
+        rng2 = random.Random(ctx.seed * 7919 + 9)
+        batches = [[sc] for sc in slow_legacy_cases(rng2, 1 if ctx.quick() else 6)]
+        rr = retry_run_cases(rng2, ctx.quick())
+        batches += [rr] if ctx.quick() else [rr[0::2], rr[1::2]]
+        for batch in batches:
             p = subprocess.Popen([binp], stdin=subprocess.PIPE, stdout=subprocess.PIPE, stderr=subprocess.PIPE, text=True, env=vlib.goenv(), cwd=ctx.tmp)
-            p.stdin.write(json.dumps(to_harness(sc)) + "\n")
+            p.stdin.write("".join(json.dumps(to_harness(sc)) + "\n" for sc in batch))
             p.stdin.close()
             procs.append(p)
+            slow.append(batch)
     ctx.proof_stage(["Blob"], "Blob/Properties_C09.v", extra_targets=["Blob/PullCorr.v"])
     if not ctx.quick():
         ctx.coqchk(["V.Blob.Properties_C09"])
@@ -923,23 +1001,27 @@ def run(ctx, only_cases=None):
     seen = set()
     ok = process(ctx, binp, cases, obs, seen, "cases", rerun=True)
     if procs:
-        sobs = []
-        for p in procs:
+        scases, sobs = [], []
+        for batch, p in zip(slow, procs):
             try:
                 out = p.stdout.read()
                 p.wait(timeout=200)
-                line = [l for l in out.split("\n") if l.strip().startswith("{")]
-                sobs.append(json.loads(line[0]) if line else {"harness_error": "no answer: " + p.stderr.read()[-500:]})
+                lines = [json.loads(l) for l in out.split("\n") if l.strip().startswith("{")]
             except Exception as ex:
                 p.kill()
-                sobs.append({"harness_error": "slow legacy push case: %s" % ex})
-        for sc, so in zip(slow, sobs):
-            if "harness_error" in so:
-                ctx.obligation("slow legacy-push harness process answered", False, str(so))
-                ctx.proof_failures.append({"obligation": "correspondence: slow legacy-push case did not answer", "detail": str(so)})
+                lines = []
+            if len(lines) != len(batch):
+                detail = "answered %d of %d: %s" % (len(lines), len(batch), p.stderr.read()[-800:])
+                ctx.obligation("parallel harness process (slow legacy pushes / retry runs) answered every case", False, detail)
+                ctx.proof_failures.append({"obligation": "correspondence: a parallel harness process did not answer every case", "detail": detail})
                 return
-        ctx.extra["slow_legacy_push"] = [{"commit_fail": sc["commit_fail"], "log_tail": so.get("log", [])[-4:], "err": so.get("err")} for sc, so in zip(slow, sobs)]
-        process(ctx, binp, slow, sobs, seen, "slow", rerun=False)
+            scases += batch
+            sobs += lines
+        ctx.extra["slow_legacy_push"] = [{"commit_fail": sc["commit_fail"], "log_tail": so.get("log", [])[-4:], "err": so.get("err")}
+                                         for sc, so in zip(scases, sobs) if sc["kind"] == "push-legacy"]
+        ctx.extra["retry_runs"] = [{"klass": sc["klass"], "scripted_attempts": len(sc["attempts"]), "made": so.get("attempts_made"), "handler_ok": handler_ok(so)}
+                                   for sc, so in zip(scases, sobs) if sc["kind"] == "pull"]
+        process(ctx, binp, scases, sobs, seen, "slow", rerun=False)
 
 
 def process(ctx, binp, cases, obs, seen, name, rerun):
